@@ -1,5 +1,6 @@
 import SV.Driver.Util
 import SV.Model.Writer
+import SV.Model.DigestPool
 /-
 svdriver_c03: line protocol for the C03 model (eStargz writer / builder bookkeeping).
 
@@ -22,6 +23,12 @@ check mode (translation validation of one REAL blob by the proved `checkIndex`):
   c.file <name hex> <content hex>           -> ok     regular files of the tar stream in order
   c.toc <name hex> <kind> <size> <offset> <innerOffset> <chunkOffset> <chunkSize>  -> ok
   c.run                                     -> index-ok | index-bad
+
+fault stream (histories of sessions in one process; model `SV.DigestPool`, discipline of /repo = `fresh`):
+  m.fault <kind> <n>        n sessions of the process failed: no blob, the Writer state is gone, the
+                            process-wide digester state is what a failed chunk copy leaves        -> err
+  d.begin                                                                                         -> ok
+  d.chunk <data hex>        one successful chunk copy: the bytes its chunkDigest is taken over    -> rec <hex>
 -/
 namespace SV.Driver.C03
 open SV.Driver SV.Writer
@@ -41,6 +48,7 @@ structure St where
   cMems : List Member := []                      -- reversed
   cFiles : List FileC := []                      -- reversed
   cToc : List TocEnt := []                       -- reversed
+  pool : List SV.DigestPool.Bytes := []          -- process-wide digester states (survives m.begin / m.fault)
 
 def kindOf? : String → Option Kind
   | "reg" => some .reg | "chunk" => some .chunk | "dir" => some .dir | "symlink" => some .symlink
@@ -97,7 +105,7 @@ def step (s : St) : List String → St × String
     | some fmt, some chunk, some minChunk, some workers, some needsOpen =>
       if mode = "W" ∨ mode = "L" ∨ mode = "B" then
         ({ fmt := fmt, mode := mode, chunkRaw := chunk, minChunk := minChunk, workers := workers,
-           needsOpen := needsOpen }, "ok")
+           needsOpen := needsOpen, pool := s.pool }, "ok")
       else (s, "bad-op")
     | _, _, _, _, _ => (s, "bad-op")
   | ["m.ent", name, kind, istoc, pre, data, post] =>
@@ -143,6 +151,19 @@ def step (s : St) : List String → St × String
       | none => (s, "none")
     | some _, none => (s, "none")
     | none, _ => (s, "bad-op")
+  | ["m.fault", _kind, n] =>
+    match parseNat? n with
+    | some n =>
+      let r := SV.DigestPool.chunkStep .fresh s.pool { sess := n, data := [], failAt := some 0 }
+      ({ pool := r.2 }, match r.1 with | none => "err" | some _ => "ok")
+    | none => (s, "bad-op")
+  | ["d.begin"] => (s, "ok")
+  | ["d.chunk", data] =>
+    match unhex? data with
+    | some data =>
+      let r := SV.DigestPool.chunkStep .fresh s.pool { data := data }
+      ({ s with pool := r.2 }, match r.1 with | some d => "rec " ++ hex d | none => "err")
+    | none => (s, "bad-op")
   | ["c.begin"] => ({ s with cMems := [], cFiles := [], cToc := [] }, "ok")
   | ["c.mem", clen, payload] =>
     match parseNat? clen, unhex? payload with
